@@ -2,7 +2,7 @@
   C04 — the terminal state: a completed run is quiescent and everything ran
   exactly once.
 -/
-import TopsimProofs.FinishRes11
+import TopsimProofs.FinishStr3
 
 namespace Topsim
 namespace Sys
@@ -63,14 +63,41 @@ theorem C04_all_ingest_tasks_ran (s0 s : Sys) (hw : WFConfig s0) (h : ReachOk s0
 
 /-! ### (5) every workflow task ran — statement, and the part that is proved -/
 
-/-- (5), full strength (NOT proved): in a finished run without crash, with positive ingest
-rates, every observation has a plan that has been emptied and every workflow task record of
-that observation is FINISHED and was started. -/
+/-- (5), full strength (NOT proved in general; proved below when no tier move is made): in a
+finished run without crash, with positive ingest rates, every observation has a plan that has been
+emptied and every workflow task record of that observation is FINISHED and was started. -/
+-- CORRECTED: `hb0` and `hsz0` added (the initial buffer holds no observation and no data).
+-- `WFConfig` says nothing about `s0.buf`: an observation stored twice is planned twice (see (6)),
+-- and a hot buffer that starts over-full (`cur > total`) or with recorded sizes breaks the
+-- accounting that makes `is_finished()` imply "every observation was removed".
 def C04_all_workflow_tasks_ran_statement : Prop :=
-  ∀ (s0 s : Sys), WFConfig s0 → ReachOk s0 s → s.isFinished = true → s.crashed = none →
+  ∀ (s0 s : Sys), WFConfig s0 →
+    (s0.buf.hot.stored = [] ∧ s0.buf.hot.scheduled = [] ∧ s0.buf.hot.finished = [] ∧ s0.buf.cold.stored = []) →
+    (s0.buf.size = [] ∧ s0.buf.hot.cur ≤ s0.buf.hot.total) →
+    ReachOk s0 s → s.isFinished = true → s.crashed = none →
     (∀ o ∈ s0.obs, 0 < o.rate) →
     ∀ o ∈ s.obs, ∃ p, s.plan? o.id = some p ∧ p.tasks = [] ∧
       ∀ r ∈ s.tasks, (∃ c n, r.id = .wf o.id c n) → r.status = .finished ∧ r.id ∈ s.starts
+
+/-- (5), partial: the statement above for runs in which no tier-move process (`move_hot_to_cold`,
+`move_cold_to_hot`) was ever created (`NoTier s`: the process table, which keeps ended processes,
+holds none).  In a finished run without crash, with positive ingest rates, every observation has a
+plan that has been emptied and every workflow task record of that observation is FINISHED and was
+started (with `C04_starts_once`, exactly once). -/
+theorem C04_all_workflow_tasks_ran_partial (s0 s : Sys) (hw : WFConfig s0)
+    (hb0 : s0.buf.hot.stored = [] ∧ s0.buf.hot.scheduled = [] ∧ s0.buf.hot.finished = [] ∧
+      s0.buf.cold.stored = [])
+    (hsz0 : s0.buf.size = [] ∧ s0.buf.hot.cur ≤ s0.buf.hot.total)
+    (h : ReachOk s0 s) (hf : s.isFinished = true) (hc : s.crashed = none)
+    (hrate : ∀ o ∈ s0.obs, 0 < o.rate) (hnt : NoTier s) :
+    ∀ o ∈ s.obs, ∃ p, s.plan? o.id = some p ∧ p.tasks = [] ∧
+      ∀ r ∈ s.tasks, (∃ c n, r.id = .wf o.id c n) → r.status = .finished ∧ r.id ∈ s.starts := by
+  have hbuf : bufList s0.buf = [] := by
+    obtain ⟨h1, h2, h3, h4⟩ := hb0
+    simp [bufList, h1, h2, h3, h4]
+  intro o ho
+  exact removed_tasks_ran s0 s hw hbuf h hc o.id
+    (finished_all_removed s0 s hw hbuf hsz0 hrate h hf hc hnt o ho)
 
 /-- (5), partial: along every run that has not crashed (finished or not), whatever the cluster
 reports as finished (`Cluster.is_task_finished`, the test the algorithms use on predecessors) has
@@ -83,6 +110,25 @@ theorem C04_finished_tasks_ran_partial (s0 s : Sys) (hw : WFConfig s0) (h : Reac
   split at ht
   · exact absurd ht (by simp)
   · rename_i b hb; rw [hb, ht]
+
+/-- (5), partial: along every run that has not crashed (finished or not, whatever the oracle
+inputs under `preOk`), every observation whose data has been removed from the hot buffer
+(`HotBuffer.remove`, the last act of `allocate_tasks`) has a plan that has been emptied, and every
+workflow task record of that observation is FINISHED and was started (with `C04_starts_once`,
+exactly once). -/
+-- CORRECTED: `hb0`, the initial buffer holds no observation, is needed as for (6): an observation
+-- stored twice is planned twice, and the second plan replaces the first while records of the first
+-- are still unfinished.
+theorem C04_removed_workflow_tasks_ran_partial (s0 s : Sys) (hw : WFConfig s0)
+    (hb0 : s0.buf.hot.stored = [] ∧ s0.buf.hot.scheduled = [] ∧ s0.buf.hot.finished = [] ∧
+      s0.buf.cold.stored = [])
+    (h : ReachOk s0 s) (hc : s.crashed = none) :
+    ∀ o ∈ s.buf.hot.finished, ∃ p, s.plan? o = some p ∧ p.tasks = [] ∧
+      ∀ r ∈ s.tasks, (∃ c n, r.id = .wf o c n) → r.status = .finished ∧ r.id ∈ s.starts := by
+  have hbuf : bufList s0.buf = [] := by
+    obtain ⟨h1, h2, h3, h4⟩ := hb0
+    simp [bufList, h1, h2, h3, h4]
+  exact fun o ho => removed_tasks_ran s0 s hw hbuf h hc o ho
 
 /-! ### (6) no reservation left at the end -/
 
